@@ -10,6 +10,7 @@ import (
 	"github.com/linkedin/go-zk"
 	"go.uber.org/zap"
 
+	"github.com/linkedin/Burrow/core/internal/helpers"
 	"github.com/linkedin/Burrow/core/protocol"
 )
 
@@ -64,3 +65,17 @@ func VerifConfigureKafkaClient(app *protocol.ApplicationContext, name, configRoo
 func (module *KafkaClient) VerifClusterAndTopic() (string, string) {
 	return module.cluster, module.offsetsTopic
 }
+
+// VerifStartKafkaConsumer runs the module's real startKafkaConsumer (the live consumers, the backfill consumers and
+// every partitionConsumer goroutine they start) against the given client.
+func (module *KafkaClient) VerifStartKafkaConsumer(client helpers.SaramaClient, offsetsTopic string, startLatest, backfillEarliest bool, reportedGroup string) error {
+	module.offsetsTopic = offsetsTopic
+	module.startLatest = startLatest
+	module.backfillEarliest = backfillEarliest
+	module.reportedConsumerGroup = reportedGroup
+	module.quitChannel = make(chan struct{})
+	return module.startKafkaConsumer(client)
+}
+
+// VerifStop is the module's real Stop.
+func (module *KafkaClient) VerifStop() error { return module.Stop() }
